@@ -284,3 +284,28 @@ package controller
 //@   loop 1
 //@     invariant 0 <= iter() && iter() <= len(c.KubernetesBindings)
 //@     invariant forall(j, 0, iter(), !SnapMatch(c.KubernetesBindings[j], bindingName))
+
+// ---- C15: every declared conversion rule of a hook gets a link ------------------------------------
+// (the chain search is fed from the hook configurations; a rule without a link has no hook to run
+// and the conversion answers Failed although a valid chain exists)
+//@ package github.com/flant/shell-operator/pkg/webhook/conversion
+//@ trusted func (*WebhookManager).AddWebhook
+//@   modifies nothing
+//@ package github.com/flant/shell-operator/pkg/hook/controller
+
+//@ pred RulesLinked(links map[string]map[conversion.Rule]*ConversionBindingToWebhookLink, cfg htypes.ConversionConfig, n int) := has(links, cfg.Webhook.CrdName) && links[cfg.Webhook.CrdName] != nil
+//@     && forall(j, 0, n, has(links[cfg.Webhook.CrdName], cfg.Webhook.Rules[j]) && links[cfg.Webhook.CrdName][cfg.Webhook.Rules[j]] != nil)
+
+//@ func (*ConversionBindingsController).EnableConversionBindings
+//@   prop C15
+//@   requires c.Links != nil && c.webhookManager != nil && forall(i, 0, len(c.Bindings), c.Bindings[i].Webhook != nil)
+//@   requires forall(k, string, has(c.Links, k) ==> c.Links[k] != nil)
+//@   modifies mapof(c.Links), all(mapof(c.Links[""]))
+//@   ensures [every-declared-rule-linked] forall(i, 0, len(c.Bindings), RulesLinked(c.Links, c.Bindings[i], len(c.Bindings[i].Webhook.Rules)))
+//@   loop 1
+//@     invariant 0 <= iter() && iter() <= len(c.Bindings) && forall(k, string, has(c.Links, k) ==> c.Links[k] != nil)
+//@     invariant forall(i, 0, iter(), RulesLinked(c.Links, c.Bindings[i], len(c.Bindings[i].Webhook.Rules)))
+//@   loop 2
+//@     invariant 0 <= iter() && iter() <= len(config.Webhook.Rules) && forall(k, string, has(c.Links, k) ==> c.Links[k] != nil)
+//@     invariant forall(i, 0, len(c.Bindings), atloop(RulesLinked(c.Links, c.Bindings[i], len(c.Bindings[i].Webhook.Rules))) ==> RulesLinked(c.Links, c.Bindings[i], len(c.Bindings[i].Webhook.Rules)))
+//@     invariant RulesLinked(c.Links, config, iter())
